@@ -124,6 +124,12 @@ let rec skipn n l =
              | [] -> []
              | _ :: l0 -> skipn n0 l0)
 
+(** val seq : nat -> nat -> nat list **)
+
+let rec seq start = function
+| O -> []
+| S len0 -> start :: (seq (S start) len0)
+
 (** val repeat : 'a1 -> nat -> 'a1 list **)
 
 let rec repeat x = function
